@@ -6,8 +6,8 @@
      - the declared case names are a function of the identifiers (or the wire names),
    and these lemmas turn that into the extracted verdict good_C02. *)
 From Coq Require Import String Lia ZifyBool ZifyN.
-From TS Require Import Model.Str Model.Outcome Model.Unicode Model.Types Model.Lang.Decl.
-From TS Require Import Spec.C16Spec Spec.C02Spec.
+From TS Require Import Model.Str Model.Outcome Model.Unicode Model.Rename Model.Types Model.Lang.Decl.
+From TS Require Import Spec.C16Spec Spec.C02Spec Proofs.C16.
 Local Open Scope N_scope.
 Local Notation length := List.length (only parsing).
 
@@ -23,6 +23,12 @@ Proof. induction l; cbn [map]; constructor; auto. Qed.
 Lemma c02_Forall_flat {A} (c : str) (f : A -> list str) (l : list A) :
   (forall x, Forall (eq c) (f x)) -> Forall (eq c) (flat_map f l).
 Proof. intros H. induction l as [|x r IH]; cbn [flat_map]; [constructor|]. apply Forall_app. split; auto. Qed.
+Lemma c02_Forall_flat' {A} (c : str) (f : A -> list str) (l : list A) :
+  Forall (fun x => Forall (eq c) (f x)) l -> Forall (eq c) (flat_map f l).
+Proof. induction 1; cbn [flat_map]; [constructor|]. apply Forall_app. split; auto. Qed.
+Lemma c02_Forall2_Forall_r {A B} (R : A -> B -> Prop) (P : B -> Prop) l r :
+  Forall2 R l r -> (forall x y, R x y -> P y) -> Forall P r.
+Proof. induction 1; intros H'; constructor; eauto. Qed.
 Lemma c02_Forall_repeat (c : str) n : Forall (eq c) (repeat c n).
 Proof. induction n; cbn [repeat]; constructor; auto. Qed.
 
@@ -63,6 +69,25 @@ Proof.
     cbn [filter]. destruct (c02_is_enum_decl p); [discriminate|]. now apply IH. }
   cbn [app filter]. unfold c02_is_enum_decl at 1. now rewrite Hd.
 Qed.
+
+(* helper declarations: not an enum, no cases *)
+Definition c02_plain (d : decl) : bool := negb (c02_is_enum_decl d) && c02_is_nil (d_variants d).
+
+Lemma c02_plain_not_enum pre : forallb c02_plain pre = true -> forallb (fun p => negb (c02_is_enum_decl p)) pre = true.
+Proof.
+  induction pre as [|p r IH]; cbn [forallb]; [reflexivity|]. intros H. apply andb_true_iff in H as [Hp Hr].
+  unfold c02_plain in Hp. apply andb_true_iff in Hp as [Hp _]. now rewrite Hp, IH.
+Qed.
+Lemma c02_plain_cases pre : forallb c02_plain pre = true -> c02_good_cases pre = true.
+Proof.
+  unfold c02_good_cases. induction pre as [|p r IH]; cbn [forallb]; [reflexivity|]. intros H. apply andb_true_iff in H as [Hp Hr].
+  unfold c02_plain in Hp. apply andb_true_iff in Hp as [_ Hp]. rewrite (IH Hr), andb_true_r.
+  destruct (d_variants p); [reflexivity|discriminate].
+Qed.
+Lemma c02_good_cases_app a b : c02_good_cases (a ++ b) = c02_good_cases a && c02_good_cases b.
+Proof. unfold c02_good_cases. apply forallb_app. Qed.
+Lemma c02_good_cases_one d : c02_distinct (map vd_name (d_variants d)) = true -> c02_good_cases [d] = true.
+Proof. unfold c02_good_cases. cbn [forallb]. now intros ->. Qed.
 
 (* ---------- pairwise different case names ---------- *)
 Lemma c02_existsb_map {A} (R : str -> str -> bool) (Q : A -> A -> bool) (f : A -> str) a l :
@@ -129,3 +154,91 @@ Proof.
   unfold c02_has_data. induction vs as [|v r IH]; cbn [map existsb]; [reflexivity|].
   intros H. apply orb_false_iff in H as [Hv Hr]. rewrite (IH Hr). destruct v; try discriminate. reflexivity.
 Qed.
+
+(* relational form: the declared names are related to the identifiers one by one *)
+Lemma c02_existsb_rel (Q : str -> str -> bool) (R : str -> str -> Prop) a na l names :
+  Forall2 R l names ->
+  (forall b nb, In b l -> R b nb -> na = nb -> Q a b = true) ->
+  existsb (Q a) l = false -> existsb (str_eqb na) names = false.
+Proof.
+  induction 1 as [|b nb l' names' Hb _ IH]; intros H He; cbn [existsb] in *; [reflexivity|].
+  apply orb_false_iff in He as [He1 He2]. apply orb_false_iff. split.
+  - destruct (str_eqb na nb) eqn:E; [|reflexivity]. apply str_eqb_eq in E.
+    rewrite (H b nb (or_introl eq_refl) Hb E) in He1. discriminate.
+  - apply IH; [|exact He2]. intros c nc Hc. apply H. now right.
+Qed.
+
+Lemma c02_distinct_rel (Q : str -> str -> bool) (R : str -> str -> Prop) l names :
+  Forall2 R l names ->
+  (forall a b na nb, In a l -> In b l -> R a na -> R b nb -> na = nb -> Q a b = true) ->
+  c02_has_pair Q l = false -> c02_distinct names = true.
+Proof.
+  unfold c02_distinct. intros HF. induction HF as [|a na l' names' Ha HF' IH]; intros H Hp; [reflexivity|].
+  cbn [c02_has_pair] in *. apply orb_false_iff in Hp as [Hp1 Hp2].
+  apply negb_true_iff. apply orb_false_iff. split.
+  - apply (c02_existsb_rel Q R a na l' names' HF'); [|exact Hp1].
+    intros b nb Hb Rb E. apply (H a b na nb); auto; [now left|now right].
+  - apply negb_true_iff. apply IH; [|exact Hp2]. intros x y nx ny Hx Hy. apply H; now right.
+Qed.
+
+Lemma c02_Forall2_maps {A B} (R : str -> str -> Prop) (g : A -> str) (h : B -> str) (P : A -> B -> Prop) l r :
+  Forall2 P l r -> (forall x y, P x y -> R (g x) (h y)) -> Forall2 R (map g l) (map h r).
+Proof. induction 1; intros H'; cbn [map]; constructor; auto. Qed.
+
+(* ---------- typeshare's own PascalCase / camelCase on UpperCamelCase identifiers ---------- *)
+Lemma c02_pascal_go_camel tolow r : forallb camel_char r = true ->
+  pascal_go tolow false r = if tolow then str_lower_ascii r else r.
+Proof.
+  induction r as [|c r IH]; intros H; cbn [pascal_go]; [now destruct tolow|].
+  cbn [forallb] in H. apply andb_true_iff in H as [Hc Hr].
+  rewrite camel_char_not_us by assumption. rewrite (IH Hr). destruct tolow; reflexivity.
+Qed.
+
+Lemma c02_pascal_conv s : conv_variant s = true -> to_pascal_case s = c02_caps_norm s.
+Proof.
+  destruct s as [|c r]; [discriminate|]. cbn [conv_variant]. intros H. apply andb_true_iff in H as [Hc Hr].
+  unfold to_pascal_case, c02_caps_norm, all_upper. cbn [pascal_go].
+  assert (c =? ch_us = false) as -> by (unfold is_aupper, ch_us in *; lia).
+  rewrite aupper_upper by assumption. rewrite (c02_pascal_go_camel _ r Hr).
+  destruct (str_eqb (str_upper_ascii (c :: r)) (c :: r)); reflexivity.
+Qed.
+
+Lemma c02_caps_norm_head s : conv_variant s = true ->
+  exists c r, c02_caps_norm s = c :: r /\ is_aupper c = true.
+Proof.
+  destruct s as [|c r]; [discriminate|]. cbn [conv_variant]. intros H. apply andb_true_iff in H as [Hc _].
+  unfold c02_caps_norm. destruct (str_eqb _ _); eauto.
+Qed.
+
+Lemma c02_camel_conv s : conv_variant s = true ->
+  exists c r, c02_caps_norm s = c :: r /\ is_aupper c = true /\ to_camel_case s = Ok (alower c :: r).
+Proof.
+  intros H. destruct (c02_caps_norm_head s H) as (c & r & E & Hc). exists c, r. repeat split; try assumption.
+  unfold to_camel_case. rewrite (c02_pascal_conv s H), E.
+  assert (c <? 128 = true) as -> by (unfold is_aupper in Hc; lia). reflexivity.
+Qed.
+
+(* mapM over the outcome monad producing lists of declarations *)
+Lemma c02_mapM_concat_Forall {A B} (P : B -> Prop) (f : A -> outcome (list B)) l dss :
+  mapM f l = Ok dss -> (forall x ds, f x = Ok ds -> Forall P ds) -> Forall P (List.concat dss).
+Proof.
+  revert dss. induction l as [|x r IH]; intros dss; cbn [mapM].
+  - intros [= <-] _. constructor.
+  - destruct (f x) as [ds| |] eqn:Ex; cbn [bind]; try discriminate.
+    destruct (mapM f r) as [dss'| |]; cbn [bind]; try discriminate.
+    intros [= <-] H. cbn [List.concat]. apply Forall_app. split; [eapply H; eassumption|]. apply IH; auto.
+Qed.
+
+Lemma c02_conv_ascii' s : conv_variant s = true -> forallb is_ascii s = true.
+Proof.
+  destruct s as [|c r]; [discriminate|]. cbn [conv_variant forallb]. intros H. apply andb_true_iff in H as [Hc Hr].
+  rewrite (camel_is_ascii r Hr), andb_true_r. unfold is_ascii, is_aupper in *. lia.
+Qed.
+Lemma c02_Forall2_length {A B} (R : A -> B -> Prop) l r : Forall2 R l r -> length r = length l.
+Proof. induction 1; cbn; auto. Qed.
+
+Lemma c02_forallb_map {A B} (f : A -> B) (p : B -> bool) l : forallb p (map f l) = forallb (fun x => p (f x)) l.
+Proof. induction l as [|x r IH]; cbn [map forallb]; [reflexivity|]. now rewrite IH. Qed.
+
+Lemma c02_Forall_forallb {A} (p : A -> bool) l : Forall (fun x => p x = true) l -> forallb p l = true.
+Proof. induction 1; cbn [forallb]; [reflexivity|]. now rewrite H, IHForall. Qed.
